@@ -3,6 +3,7 @@
 package restful
 
 import (
+	"net/http"
 	"regexp"
 	"strings"
 )
@@ -267,4 +268,69 @@ func bestIdx(W []*WebService, Q []string, n int) int {
 		return n - 1
 	}
 	return b
+}
+
+// --- staged elimination in detectRoute (C01, C02) ------------------------------
+// A route passes stage 0 if all its conditions hold, stage 1 if also the
+// method matches, stage 2 if also the Content-Type is admitted, stage 3 if
+// also the Accept header is satisfiable.
+
+func condsPass(r Route, req *http.Request) bool {
+	return forall(0, len(r.If), func(j int) bool { return r.If[j](req) })
+}
+
+func acceptOf(req *http.Request) string {
+	a := req.Header.Get("Accept")
+	if len(a) == 0 {
+		return "*/*"
+	}
+	return a
+}
+
+func passes(r Route, req *http.Request, stage int) bool {
+	return condsPass(r, req) &&
+		(stage < 1 || req.Method == r.Method) &&
+		(stage < 2 || ctAdmits(r.Consumes, r.Method, r.allowedMethodsWithoutContentType, req.Header.Get("Content-Type"))) &&
+		(stage < 3 || acceptAdmits(r.Produces, acceptOf(req)))
+}
+
+// wfRouteLists: the media type lists contain no empty entries (precondition of the header oracles).
+func wfRouteLists(r Route) bool {
+	return noEmptyEntry(r.Produces) && noEmptyEntry(r.Consumes) &&
+		forall(0, len(r.If), func(j int) bool { return r.If[j] != nil })
+}
+
+// candOK: a candidate pointer of detectRoute points at one of the routes, and
+// that route is well formed and has passed the given stage.
+func candOK(p *Route, routes []Route, req *http.Request, stage int) bool {
+	return ptrInto(p, routes) && wfRouteLists(*p) && passes(*p, req, stage)
+}
+
+// --- the interface contract of RouteSelector.SelectRoute (C01, C02) -------------
+
+// pathAdmitsP: pathAdmits stated over the URL path itself (its token functions).
+func pathAdmitsP(R []string, p string, hv bool) bool {
+	if tokCount(p) < len(R) {
+		return false
+	}
+	if tokCount(p) > len(R) && !endsInTail(R, hv) {
+		return false
+	}
+	return forall(0, len(R), func(k int) bool { return tokAdmits(R[k], tokAt(p, k), hv) })
+}
+
+// routeOK / svcOK: well-formedness of the registered configuration.
+func routeOK(r Route) bool {
+	return wfTemplate(r.pathParts, r.hasCustomVerb) && wfRouteLists(r) && r.Function != nil &&
+		forall(0, len(r.Filters), func(k int) bool { return r.Filters[k] != nil })
+}
+
+func svcOK(ws *WebService) bool {
+	return wfService(ws) && wfServiceFns(ws) && routesLockOf(ws) >= 0 &&
+		forall(0, len(ws.routes), func(k int) bool { return routeOK(ws.routes[k]) })
+}
+
+// routeAdmits: C01's admission — method, path template, Content-Type, Accept, conditions.
+func routeAdmits(r *Route, req *http.Request) bool {
+	return passes(*r, req, 3) && pathAdmitsP(r.pathParts, req.URL.Path, r.hasCustomVerb)
 }
